@@ -106,7 +106,7 @@ func blsFam[K bls.KeyGroup](name string) famDef {
 
 func hpkeFam(id hpke.KEM) famDef {
 	s := id.Scheme()
-	return famDef{name: "hpke/" + s.Name(), kinds: []string{"pub", "pub", "decap", "marshal", "setup"}, slow: id == hpke.KEM_P521_HKDF_SHA512, build: func(seed uint64) *shared {
+	return famDef{name: "hpke/" + s.Name(), kinds: []string{"pub", "pub", "decap", "marshal", "setup", "session"}, slow: id == hpke.KEM_P521_HKDF_SHA512, build: func(seed uint64) *shared {
 		r := core.NewPRNG(seed)
 		_, sk0 := s.DeriveKeyPair(r.Bytes(s.SeedSize()))
 		raw, _ := sk0.MarshalBinary()
@@ -131,6 +131,36 @@ func hpkeFam(id hpke.KEM) famDef {
 					return []byte("err")
 				}
 				return o.Export(nil, 16)
+			},
+			// a whole session on contexts of the task's own (only the keys and the suite are
+			// shared): sender set-up from the task's entropy, two records sealed and opened
+			"session": func(a uint64) []byte {
+				snd, err := suite.NewSender(pk0, msgOf(a))
+				if err != nil {
+					return []byte("err")
+				}
+				enc, sealer, err := snd.Setup(core.NewStream(seed + 100 + a))
+				if err != nil {
+					return []byte("err:setup")
+				}
+				rc, _ := suite.NewReceiver(sk, msgOf(a))
+				opener, err := rc.Setup(enc)
+				if err != nil {
+					return []byte("err:receiver")
+				}
+				out := append([]byte{}, enc[:8]...)
+				for i := 0; i < 2; i++ {
+					ct, err := sealer.Seal(msgOf(a+uint64(i)), []byte("aad"))
+					if err != nil {
+						return []byte("err:seal")
+					}
+					pt, err := opener.Open(ct, []byte("aad"))
+					if err != nil {
+						return append(out, []byte("|cannot-open")...)
+					}
+					out = append(append(out, ct[len(ct)-8:]...), pt...)
+				}
+				return out
 			},
 		}}
 	}}
